@@ -414,6 +414,7 @@ func lenZeroReaches(fn *ssa.Function, target ssa.Instruction) bool {
 
 func C30(c *Ctx) {
 	c.Note("the raft-backed deployment (IncrBy reads at one PD timestamp and writes at a later one; a commit in between is not detected – seen by reading, not decidable by these rules); fingerprint collisions; retry policy on conflicts")
+	conflictTestShapeGroup(c, "K2.conflict-test-shape")
 	const r1 = "K11.conflict-detection-enabled"
 	c.Rule(r1, "cmd/nokv-redis main: the Options value passed to NoKV.Open has DetectConflicts stored true on every path to the call (and no later store of false); NewDefaultOptions is reached through the single-assignment package variable newDefaultOptions")
 	if fn := c.Fn(redisPkg, "main"); fn != nil {
